@@ -522,9 +522,14 @@ Record stress_obs := mkSObs {
   so_total : Z                 (* interval recorders: wrap-around sum of the counters persisted by
                                   EndTest; synchronized(raw): the counter persisted by the closing EndTest *)
 }.
-Definition model_obs_stress (c : cfg) (fuel : nat) (progs : list (list call)) : stress_obs :=
-  let s := drain c (run_rr c fuel O (init progs)) in
-  mkSObs (negb (all_returnedb s)) (live_flushers s) O O
+(* the harness joins the incrementing goroutines before goroutine 0 issues its [closing]
+   calls (one more iteration and the closing EndTest): two phases of round-robin *)
+Definition model_obs_stress (c : cfg) (fuel : nat) (progs : list (list call)) (closing : list call)
+  : stress_obs :=
+  let s1 := run_rr c fuel O (init progs) in
+  let s2 := mkSt (upd O (mkU UIdle closing) (users s1)) (flushers s1) (mu s1) (rc s1) (lock_log s1) in
+  let s := drain c (run_rr c fuel O s2) in
+  mkSObs (negb (all_returnedb s1 && all_returnedb s)) (live_flushers s) O O
          (if with_flusher c then wrap64 (sumZ (user_samples s))
           else match user_samples s with x :: _ => x | [] => 0 end).
 
